@@ -219,7 +219,7 @@ Proof.
   - destruct (check_field l fs) as [f| |] eqn:Ec; try discriminate.
     destruct (select_lits r fs ptr) as [sel0| | | | |] eqn:Er; try discriminate. injection H as <-.
     destruct (IH sel0 eq_refl) as [L F]. split; [cbn; congruence|]. constructor; auto.
-    destruct (check_field_sound l fs f Ec) as (A & B & C). cbn [fst snd]. auto.
+    destruct (check_field_sound l fs f Ec) as (A & B & C & _). cbn [fst snd]. auto.
 Qed.
 
 Theorem fieldsof_accepts t lits sel : front_fieldsof t lits = FROk sel ->
